@@ -263,6 +263,8 @@ fn twin_c18_c19() -> R {
     sizes.extend([20496 - 1, 20496, 20497, 30744, 30745, 30800]);
     // "random larger n": beyond four hex digits of buffer length, around further multiples of the chunk size
     sizes.extend((65530..=65560).chain(70000..=70010).chain([102480, 102489, 1 << 20, (1 << 20) + 77, 16 * 10248 + 9]));
+    // buffers of more than a thousand chunks: accumulated per-chunk overhead reaches a whole chunk at 1280 chunks
+    sizes.extend([1279 * 10248 + 3, 1280 * 10248, 1280 * 10248 + 9, 2561 * 10248 + 5000]);
     for (idx, &o) in sizes.iter().enumerate() {
         let req = Request::post("http://a.test/x").body(()).unwrap();
         let mut flow = to_send_body(req)?;
@@ -288,7 +290,7 @@ fn twin_c18_c19() -> R {
             }
         }
         // progress + monotone in the offered input (fresh flows, same buffer)
-        if o >= 6 && (o < 300 || o % 211 == 0 || (o % 10248) < 12) {
+        if o >= 6 && o < (1 << 21) && (o < 300 || o % 211 == 0 || (o % 10248) < 12) {
             let mut last = 0usize;
             for il in [1usize, 2, 15, 16, 17, 255, 256, 257, o.saturating_sub(5).max(1), o, o + 1, 2 * o + 7] {
                 n += 1;
@@ -1203,6 +1205,14 @@ fn twin_c10_c11_c09() -> R {
                                         match rr.try_response(l) {
                                             Ok((25, None)) => {}
                                             other => return Err(format!("late 100 not skipped: {:?}", other.map(|o| (o.0, o.1.is_some())))),
+                                        }
+                                    }
+                                    if late_100 && expect && (gave_up || handshake == 0) {
+                                        // "skipped exactly once": a further 100 (or a 100 after the awaited one was consumed) is handed to the caller
+                                        let l = b"HTTP/1.1 100 Continue\r\n\r\n";
+                                        match rr.try_response(l) {
+                                            Ok((25, Some(r))) if r.status().as_u16() == 100 => {}
+                                            other => return Err(format!("a second / unawaited 100 was not surfaced (handshake {}): {:?}", handshake, other.map(|o| (o.0, o.1.is_some())))),
                                         }
                                     }
                                     if rr.can_proceed() {
